@@ -63,8 +63,13 @@ TVStep == /\ l <= Len(Rec) /\ Rec[l].ev = "step"
              \* a new connection to the same daemon (handler state persists) makes the session usable again
              /\ dead' = IF e.op = "reconnect" THEN e.status # "ok" ELSE (dead \/ e.status \notin {"ok", "none"})
           /\ judged' = judged + 1 /\ l' = l + 1 /\ UNCHANGED <<pool, cur>>
-TVOther == /\ l <= Len(Rec) /\ Rec[l].ev \in {"end", "threads"} /\ l' = l + 1 /\ UNCHANGED <<table, pool, upd, viol, judged, cur, dead>>
-TVNext == TVReset \/ TVStep \/ TVOther
+TVOther == /\ l <= Len(Rec) /\ Rec[l].ev \in {"end", "threads", "begin"} /\ l' = l + 1 /\ UNCHANGED <<table, pool, upd, viol, judged, cur, dead>>
+\* the process hosting the daemon was killed by a signal while this history ran (e.g. an access through a mapping that is
+\* not backed by the file it should be backed by): recorded by the driver, judged here
+TVCrash == /\ l <= Len(Rec) /\ Rec[l].ev = "crash"
+           /\ viol' = AddViol(viol, {"C13/process-killed-by-signal-" \o Str(Rec[l].signal) \o "/while-using-the-memory-the-table-describes"}, cur)
+           /\ dead' = TRUE /\ l' = l + 1 /\ UNCHANGED <<table, pool, upd, judged, cur>>
+TVNext == TVReset \/ TVStep \/ TVOther \/ TVCrash
 TVSpec == TVInit /\ [][TVNext]_tvars
 Post == PostOK
 Report == ReportAt(l, judged, viol)
